@@ -45,7 +45,7 @@ class C18(Prop):
             nsub = rng.choice([0, 0, 0, rng.randint(1, ns)])
             yield {'kind': kind, 'recs': recs, 'crlf': rng.random() < 0.4, 'trailing_blank': rng.random() < 0.6,
                    'omit_weight': rng.random() < 0.1, 'bin': rng.choice([0.0, 0.0, 0.5, 1.0, 2.0, 5.0, 20.0]),
-                   'nsub': nsub if kind == 'parse' else 0, 'sub_seed': rng.randrange(1 << 30)}
+                   'nsub': nsub if kind in ('parse', 'roundtrip') else 0, 'sub_seed': rng.randrange(1 << 30)}
 
     # ------------------------------------------------------------------ file text
     def _text(self, case):
